@@ -6,7 +6,7 @@ Tie: (C) Model/Tracker.v (extracted) vs the real AttributionTracker in-process:
          fill == attribute_unattributed_ranges, decode / is_cb == from_utf8 / is_char_boundary,
          and the bookkeeping on synthetic (also malformed) facts.
      (M) monitors: the contracts of the theorems evaluated on the real facts (wf_diff, moves_ok,
-         Insert segments with a non-whitespace char are substantive; moves_fit outside class K1).
+         Insert segments with a non-whitespace char are substantive; move mappings aligned and moves_fit).
 Oracle (independent of the model, computed here from the real outputs and the real diff facts):
      no panic; ranges inside the new text and on char boundaries; an identical text keeps its line
      attributions; bytes of Equal segments keep their (author, ts) cover; non-whitespace bytes of
@@ -17,26 +17,27 @@ from . import common as C
 
 GEN_FILES = []
 DRIVERS = ["tracker"]
-THEOREMS = ["C16_valid_script", "C16_bounded", "C16_bounded_refuted", "C16_update_total",
-            "C16_update_inverted_panics", "C16_to_lines_total", "C16_line_char_roundtrip", "C16_roundtrip_refuted",
-            "C16_merge_preserves_coverage", "C16_merge_keeps_markers", "C16_equal_keeps", "C16_equal_keeps_refuted",
-            "C16_new_is_authors", "C16_identity_tie_refuted", "C16_identity_marker_refuted", "C16_identity_fixpoint",
-            "C16_nonvacuous"]
+THEOREMS = ["C16_valid_script", "C16_bounded", "C16_moves_ok_fit", "C16_update_total", "C16_to_lines_total",
+            "C16_line_char_roundtrip", "C16_roundtrip_refuted", "C16_merge_preserves_coverage",
+            "C16_merge_keeps_markers", "C16_equal_keeps", "C16_new_is_authors", "C16_equal_keeps_markers",
+            "C16_identity_fixpoint", "C16_regression_moved_block", "C16_regression_inverted_prior",
+            "C16_regression_tie", "C16_regression_marker", "C16_nonvacuous"]
 CLAIM = {
     "text": "Machine-checked proof (Coq 8.16.1) over an executable Gallina model of the tracker's bookkeeping "
             "(transform_attributions, merge_attributions, the line/char conversions) with the diff and the move "
             "matcher as contract-monitored facts: every output range of update lies inside the new text; update "
-            "cannot panic for ordered priors; attributions_to_line_attributions cannot slice off a char boundary "
+            "cannot panic for ANY priors; attributions_to_line_attributions cannot slice off a char boundary "
             "for ANY attributions on valid UTF-8; merge preserves the per-byte (author, ts) cover and the zero-length "
             "markers; bytes of Equal segments keep exactly their cover in the output of update; bytes of Insert "
-            "segments outside move targets belong to the reporting author; line -> char -> line keeps the AI lines "
-            "under the exact side condition wf_lattrs. The full-strength statement is proved false for four input "
-            "classes (moved block with changed whitespace; equal-ts tie; zero-length prior; inverted prior), each a "
-            "listed known finding with a witness whose facts come from a real run.",
+            "segments outside move targets belong to the reporting author; zero-length deletion markers move along "
+            "with unchanged text; merge-normal forms are fixpoints of an update with the identical text; line -> "
+            "char -> line keeps the AI lines under the exact side condition wf_lattrs. The model describes the tracker "
+            "with the repairs of the former classes C16-K1..K4, whose witnesses are proved regression lemmas.",
     "design_ref": "DESIGN.md §4 C16",
     "note": "compute_diffs (imara line diff, tokenizer, token diff) and detect_moves are an oracle: the theorems "
             "hold for all facts meeting wf_diff / moves_fit, and those contracts are monitored on the real facts of "
-            "every generated pair. C16_identity_keeps_lines and C16_ws_reformat are tested (oracle) but not proved. "
+            "every generated pair. C16_identity_keeps_lines (general priors), C16_boundaries and C16_ws_reformat are "
+            "tested (oracle) but not proved; C16-K5 (line-level diff anchoring) stays a known finding. "
             "The harness is a debug build (overflow checks on); a release build is not exercised.",
     "technique": "Coq proof over extracted model + differential correspondence on real diff facts + contract monitors",
 }
@@ -52,18 +53,17 @@ TRUSTED_BASE = [
 ]
 ASSUMPTIONS = [
     "texts are valid UTF-8 (Rust &str)",
-    "the real diff facts satisfy wf_diff and moves_ok (monitored) and, outside class C16-K1, moves_fit",
-    "prior attributions have start <= end (class C16-K4 otherwise) and positions / timestamps below 2^62 in the tests",
+    "the real diff facts satisfy wf_diff, moves_ok and moves_fit, and every move mapping pairs byte-identical "
+    "texts up to the shorter one (all monitored)",
+    "positions / timestamps below 2^62 in the tests; the identity oracle takes priors with start <= end",
 ]
 
 HUMAN = "human"
 BIG = 1 << 61
 
-K1 = "C16-K1 moved block whose whitespace changed (move mapping whose source text is not a prefix of its target text)"
-K2 = "C16-K2 two prior attributions with the same range and different (author, ts): merge_attributions re-sorts them by author name (tie winner / overrode change)"
-K3 = "C16-K3 zero-length prior attribution (deletion marker) is dropped by the next update"
+# C16-K1 .. C16-K4 are repaired in the tracker (fix commits); their witnesses are regression cases of the
+# corpus below and nothing is excused for them any more.  K5 (the line-level diff) stays open.
 K5 = "C16-K5 whitespace-only reformat that the line-level diff mis-anchors on a repeated (e.g. blank) line: the diff reports a substantive change"
-K4 = "C16-K4 prior attribution with start > end (usize underflow in find_attribution_for_insertion, debug build)"
 
 
 # ------------------------------------------------------------------ text helpers (independent of the model)
@@ -294,7 +294,7 @@ def gen_attrs(r, old_b, kind=None):
     """prior attributions for the old text; returns (attrs, kind)"""
     n = len(old_b)
     kind = kind or r.weighted([(10, "tiling"), (6, "chars"), (5, "overlap"), (3, "unsorted"), (3, "oor"),
-                               (3, "zero"), (3, "eqts"), (3, "split"), (2, "none"), (2, "whole")])
+                               (3, "zero"), (3, "eqts"), (3, "split"), (2, "none"), (2, "whole"), (3, "dups")])
     authors = ["ai_1", "ai_2", HUMAN, "zed", "amy", "bot é"]
     cbs = cb_positions(old_b)
 
@@ -342,6 +342,15 @@ def gen_attrs(r, old_b, kind=None):
             p = r.range(0, n + 1)
             attrs.append((p, p, au(), r.range(1, 60)))
         return r.shuffle(attrs), kind
+    if kind == "dups":
+        # exact duplicates, next to each other or with same-range entries of other authors between them
+        base = r.pick(attrs)
+        grp = [base, (base[0], base[1], au(), r.pick([base[3], r.range(1, 50)])), base]
+        if r.chance(1, 2):
+            grp.insert(1, (base[0], base[1], au(), base[3]))
+        if r.chance(1, 2):
+            grp.append(base)
+        return attrs + grp + [(0, n, HUMAN, r.range(1, 60))], kind
     if kind == "eqts":
         t = r.pick([0, 42, 7])
         return [(a, b, x, t) for (a, b, x, _) in attrs], kind
@@ -399,22 +408,9 @@ def lines_per_line(lattrs):
     return d
 
 
-def tie_class(attrs, text_b):
-    """two priors that are candidates of a common line and have the same range once clipped to the
-    text but different (author, ts): merge_attributions re-sorts such pairs by (author, ts)"""
-    n = len(text_b)
-    spans = line_spans(text_b)
-    cl = [(a, min(b, n), x, t) for (a, b, x, t) in attrs if a < min(b, n)]
-    for i, (a, b, x, t) in enumerate(cl):
-        for (a2, b2, x2, t2) in cl[i + 1:]:
-            if (a, b) == (a2, b2) and (x, t) != (x2, t2) and any(a < le and b > ls for (ls, le) in spans):
-                return True
-    return False
-
-
-def k1_class(old_b, new_b, segs, moves):
-    """some move mapping whose source bytes are not a prefix of its target bytes
-    (detect_moves pairs lines by TRIMMED content)"""
+def moves_misaligned(old_b, new_b, segs, moves):
+    """some move mapping whose source and target bytes disagree before the shorter one ends
+    (offsets inside the source carry over to the target only where the texts agree)"""
     if not moves or not segs or not isinstance(segs[0], list):
         return False
     dels, inss, op, np_ = [], [], 0, 0
@@ -433,7 +429,8 @@ def k1_class(old_b, new_b, segs, moves):
             return True
         src = old_b[dels[d] + s0:dels[d] + s1]
         tgt = new_b[inss[i] + t0:inss[i] + t1]
-        if src != tgt[:len(src)]:
+        k = min(len(src), len(tgt))
+        if src[:k] != tgt[:k]:
             return True
     return False
 
@@ -444,27 +441,25 @@ def oracle_update(case, f, findings):
     out = f.get("out")
     segs = f.get("segs")
     has_inv = any(a > b for (a, b, _, _) in attrs)
-    has_zero = any(a == b for (a, b, _, _) in attrs)
     moves = [tuple(m) for m in f.get("moves", [])]
-    k1 = k1_class(old_b, new_b, segs, moves)
     if segs and segs[0] in ("panic", "err"):
         findings.append(("compute_diffs / detect_moves " + segs[0], None))
         return
     if out is None or out[0] in ("panic", "err"):
-        findings.append(("update_attributions " + (out[0] if out else "missing"), K4 if has_inv else None))
+        findings.append(("update_attributions " + (out[0] if out else "missing"), None))
         return
     out = dec_attrs(out[0])
     n = len(new_b)
     # bounded
     bad = [o for o in out if not (o[0] <= o[1] <= n)]
     if bad:
-        findings.append((f"range outside the new text: {bad[0][:2]} (len {n})", K1 if k1 else None))
+        findings.append((f"range outside the new text: {bad[0][:2]} (len {n})", None))
     # boundaries (only when the priors themselves sit on boundaries of the old text)
     pri_ok = all(is_cb(old_b, min(a, len(old_b))) and is_cb(old_b, min(b, len(old_b))) for (a, b, _, _) in attrs)
     if pri_ok and not bad:
         offb = [o for o in out if not (is_cb(new_b, o[0]) and is_cb(new_b, o[1]))]
         if offb:
-            findings.append((f"range off a char boundary: {offb[0][:2]}", K1 if k1 else None))
+            findings.append((f"range off a char boundary: {offb[0][:2]}", None))
     ln = f.get("lines")
     if ln is None or ln[0] == "panic":
         findings.append(("attributions_to_line_attributions panics on the updated attributions", None))
@@ -474,11 +469,9 @@ def oracle_update(case, f, findings):
         findings.append(("attributions_to_line_attributions panics on the prior attributions", None))
         return
     # identical text keeps the line attributions
-    if old_b == new_b and ln[0] != l0[0]:
-        cls = K3 if has_zero else (K2 if tie_class(attrs, old_b) else None)
-        if has_inv:
-            cls = cls or K4
-        findings.append((f"identical text changes line attributions: {C.sx(l0[0])[:120]} -> {C.sx(ln[0])[:120]}", cls))
+    # (priors with start > end are not attribution ranges; for them only totality and bounds are checked)
+    if old_b == new_b and not has_inv and ln[0] != l0[0]:
+        findings.append((f"identical text changes line attributions: {C.sx(l0[0])[:120]} -> {C.sx(ln[0])[:120]}", None))
     # Equal segments keep their cover; Insert segments belong to the author
     op = np_ = 0
     ins_idx = 0
@@ -490,7 +483,7 @@ def oracle_update(case, f, findings):
             got = cover_map(out, np_, np_ + L, np_)
             if want != got:
                 findings.append((f"Equal segment old[{op}..{op+L}) -> new[{np_}..{np_+L}) changes its cover: "
-                                 f"{sorted(want.items())[:3]} -> {sorted(got.items())[:3]}", K1 if k1 else None))
+                                 f"{sorted(want.items())[:3]} -> {sorted(got.items())[:3]}", None))
             op += L
             np_ += L
         elif o == 1:
@@ -503,7 +496,7 @@ def oracle_update(case, f, findings):
             for k in range(L):
                 if mask[np_ + k] and not any(a <= k < b for (a, b) in tg) and not any(a <= k < b for (a, b) in cov):
                     findings.append((f"new non-whitespace byte {np_+k} of Insert segment new[{np_}..{np_+L}) "
-                                     f"is not attributed to the reporting author", K1 if k1 else None))
+                                     f"is not attributed to the reporting author", None))
                     break
             np_ += L
             ins_idx += 1
@@ -606,10 +599,16 @@ def run(ctx):
     cases = []
     corpus = [
         ("", "", [], "ai_9", 100),
-        ("a\n", "a\n", [(0, 2, "zed", 5), (0, 2, "amy", 5)], "ai_9", 100),                     # K2
-        ("abc\n", "abc\n", [(0, 4, HUMAN, 1), (2, 2, "ai_1", 9)], "ai_9", 100),                # K3
-        ("    aaa\n    bbb\n    ccc\nX\nY\nZ\n", "X\nY\nZ\naaa\nbbb\nccc\n", [(0, 24, "ai_1", 5)], "ai_9", 100),   # K1
-        ("ab cd", "ab  cd", [(0, 5, "ai_1", 5), (3, 2, "ai_1", 5)], "ai_9", 100),                 # K4
+        ("a\n", "a\n", [(0, 2, "zed", 5), (0, 2, "amy", 5)], "ai_9", 100),                     # regression: K2
+        ("abc\n", "abc\n", [(0, 4, HUMAN, 1), (2, 2, "ai_1", 9)], "ai_9", 100),                # regression: K3
+        ("    aaa\n    bbb\n    ccc\nX\nY\nZ\n", "X\nY\nZ\naaa\nbbb\nccc\n", [(0, 24, "ai_1", 5)], "ai_9", 100),   # regression: K1
+        ("ab cd", "ab  cd", [(0, 5, "ai_1", 5), (3, 2, "ai_1", 5)], "ai_9", 100),                 # regression: K4
+        ("    aaa\n    bbb\n    ccc\nX\nY\nZ\nW\n", "X\nY\nZ\naaa\nbbb\nccc\nW\n",
+         [(0, 8, "ai_1", 5), (8, 16, "ai_2", 6), (16, 24, "ai_1", 7)], "ai_9", 100),               # regression: K1, per-line authors
+        ("\U0001F389\nlet value = compute(alpha, beta);\n\u00df = \u00fc\n", "\U0001F389\nlet value = compute(alpha, beta);\n\u00df = \u00fc\n",
+         [(4, 39, "ai_1", 39), (10, 14, "ai_2", 26), (10, 14, "ai_1", 36), (22, 36, HUMAN, 47)], "ai_9", 100),  # regression: K2, overrode
+        ("abc\nxyz\n", "Q\nabc\nxyz\n", [(0, 8, HUMAN, 1), (6, 6, "ai_2", 9)], "ai_9", 100),   # regression: K3, marker moves along
+        ("ab\n", "ab\n", [(0, 2, "ai_1", 5), (0, 2, "ai_2", 5), (0, 2, "ai_1", 5), (0, 3, HUMAN, 9)], "ai_9", 100),  # duplicates apart
     ]
     for i, (o, n, at, au, ts) in enumerate(corpus):
         cases.append({"id": f"corpus{i}", "old": o, "new": n, "attrs": at, "author": au, "ts": ts, "kind": "corpus", "akind": "corpus"})
@@ -710,8 +709,10 @@ def run(ctx):
             oracle_update(c, f, findings)
             moves = f.get("moves", [])
             cnt["moves"] += 1 if moves else 0
-            k1 = k1_class(c["old_b"], c["new_b"], segs, [tuple(m) for m in moves])
+            k1 = moves_misaligned(c["old_b"], c["new_b"], segs, [tuple(m) for m in moves])
             cnt["k1"] += k1
+            if k1:
+                mon_bad.append(f"{c['id']} old={c['old']!r} new={c['new']!r}: a move mapping pairs texts that differ: {moves}")
             # which Insert rule of transform_attributions each Insert segment of the real script exercises
             np3, prev, ins_i = 0, None, 0
             for sg in segs if (not segs or isinstance(segs[0], list)) else []:
@@ -795,9 +796,9 @@ def run(ctx):
                         hit[name] += 1
                 if g.get("wf") != [1] or g.get("mok") != [1]:
                     mon_bad.append(f"{c['id']}: model-side wf_diff={g.get('wf')} moves_ok={g.get('mok')} on the real facts")
-                if g.get("mfit") != [1] and not k1:
+                if g.get("mfit") != [1]:
                     cnt["fit_bad"] += 1
-                if g.get("mfit") == [1] and g.get("ord") == [1]:
+                if g.get("mfit") == [1]:
                     # instances of C16_update_total / C16_bounded in the extracted model
                     mo = g.get("out")
                     if mo is None or mo[0] == "panic" or any(not (x[0] <= x[1] <= len(c["new_b"])) for x in mo[0]):
@@ -823,7 +824,7 @@ def run(ctx):
             continue
         pri = dec_attrs(f["out"][0])
         if any(not (x[0] <= x[1] <= len(c["new_b"])) for x in pri):
-            continue                        # out-of-bounds output (class K1): not a legal prior of the next round
+            continue                        # out-of-bounds output (already a violation): not a legal prior of the next round
         if r.chance(2, 3):
             chained.append({"id": "ch" + c["id"], "old": c["new"], "new": c["new"], "attrs": pri, "author": "ai_7",
                             "ts": 200, "kind": "chained-identical", "akind": "update-output"})
@@ -837,9 +838,9 @@ def run(ctx):
     n_known = cnt["known"]
     n_k1, n_moves, n_fit_bad_outside_k1 = cnt["k1"], cnt["moves"], cnt["fit_bad"]
     obligations.append(("monitor:wf_diff + moves_ok on the real diff facts (script re-concatenates, boundaries, substantive "
-                        "ranges inside, Insert with non-whitespace is substantive, moves inside their segments)",
+                        "ranges inside, Insert with non-whitespace is substantive, moves inside their segments and pairing equal texts)",
                         not mon_bad, "; ".join(mon_bad[:3])))
-    obligations.append(("monitor:moves_fit holds on the real facts outside class C16-K1", n_fit_bad_outside_k1 == 0,
+    obligations.append(("monitor:moves_fit holds on the real facts", n_fit_bad_outside_k1 == 0,
                         f"{n_fit_bad_outside_k1} cases"))
 
     # ---------- synthetic facts (bookkeeping on arbitrary, also malformed, facts)
@@ -1012,7 +1013,7 @@ def run(ctx):
             "input_distribution": dist,
             "hypothesis_hit_rate": {k: f"{v}/{len(cases)}" for k, v in hit.items()},
             "cases_with_moves": n_moves,
-            "cases_in_K1": n_k1,
+            "cases_with_misaligned_moves": n_k1,
             "roundtrip_wf_inputs": f"{n_rt_wf}/{len(rcases)}",
             "synthetic_fact_sets_with_moves_ok": f"{n_tok}/{len(tcases)}",
             "synthetic_panics_in_impl": n_tpanic,
